@@ -99,23 +99,69 @@ theorem step_selChain {n : Nat} (ih : AllGood n) (e : Expr) (hsz : sizeOf e < n 
     good
   · good
 
+/-- `resolve` followed by a consumer that may rely on the symbol being in range -/
+theorem good_resolve_bind {β} {name : String} {f : Option Symbol → CM β} {P : β → Prop}
+    (h : ∀ r s, Inv s → (∀ y, r = some y → SymOKx s.constants (fmd s.tables) (fnf s.tables) y) →
+      Sat (f r) s (fun b s' => Inv s' ∧ Rel s s' ∧ P b)) : GoodP P (resolve name >>= f) := by
+  intro s hs
+  apply Sat.bind
+  apply sat_resolve hs
+  intro r s1 hi1 hr1 _ _ hr
+  apply Sat.mono (h r s1 hi1 hr)
+  intro b s2 ⟨hi2, hr2, hp⟩
+  exact ⟨hi2, hr1.trans hr2, hp⟩
+
+theorem sat_bind_good {α β} {m : CM α} {f : α → CM β} {s : CState} {P : β → Prop}
+    (hm : Sat m s (fun _ s' => Inv s' ∧ Rel s s' ∧ True)) (hf : ∀ a, GoodP P (f a)) :
+    Sat (m >>= f) s (fun b s' => Inv s' ∧ Rel s s' ∧ P b) := by
+  apply Sat.bind
+  apply Sat.mono hm
+  intro a s1 ⟨hi1, hr1, _⟩
+  apply Sat.mono (hf a s1 hi1)
+  intro b s2 ⟨hi2, hr2, hp⟩
+  exact ⟨hi2, hr1.trans hr2, hp⟩
+
 theorem step_defineAssign {n : Nat} (ih : AllGood n) (pos : Pos) (lhs : Expr) (kw op : Nat) (allow : Bool)
     (hsz : sizeOf lhs < n + 1) (hok : okE lhs = true) : Good (compileDefineAssign pos lhs kw op allow) := by
   have hd := good_compileDefine pos
-  have ha := good_compileAssignSym pos
   unfold compileDefineAssign
   split
   · rename_i e last
     simp only [okE, Bool.and_eq_true] at hok
     have h1 := ih.selChain e (by sz) hok.1
     have h2 := ih.expr last (by sz) hok.2
-    good
+    refine good_resolve_bind fun r s hs hr => ?_
+    split
+    · exact Sat.cerr
+    · rename_i sym
+      have hy := hr sym rfl
+      refine sat_bind_good ?_ (fun _ => by good)
+      split
+      · exact good_emit_ (by decide) (by opa) s hs
+      · exact sat_emit_free hs rfl hy ‹_›
+      · exact sat_emit_global hs rfl hy ‹_›
+      · exact Sat.cerr
   · rename_i e last
     simp only [okE, Bool.and_eq_true] at hok
     have h1 := ih.selChain e (by sz) hok.1
     have h2 := ih.expr last (by sz) hok.2
-    good
-  · good
+    refine good_resolve_bind fun r s hs hr => ?_
+    split
+    · exact Sat.cerr
+    · rename_i sym
+      have hy := hr sym rfl
+      refine sat_bind_good ?_ (fun _ => by good)
+      split
+      · exact good_emit_ (by decide) (by opa) s hs
+      · exact sat_emit_free hs rfl hy ‹_›
+      · exact sat_emit_global hs rfl hy ‹_›
+      · exact Sat.cerr
+  · split
+    · exact hd _ _ _
+    · refine good_resolve_bind fun r s hs hr => ?_
+      split
+      · exact Sat.cerr
+      · exact sat_compileAssignSym hs (hr _ rfl)
 
 theorem step_destructure {n : Nat} (ih : AllGood n) (pos : Pos) (kw op num : Nat) (tmp : Int) :
     ∀ es k found, sizeOf es < n + 1 → okEs es = true → Good (compileDestructure pos kw op num tmp es k found)
@@ -259,17 +305,17 @@ theorem step_expr {n : Nat} (ih : AllGood n) (e : Expr) (hsz : sizeOf e < n + 1)
     intro s hs
     apply Sat.bind
     apply Sat.mono (hw s hs)
-    intro r s1 ⟨hi1, hr1, hfn⟩
+    intro r s1 ⟨hi1, hr1, hfn, horig⟩
     obtain ⟨fn, ft⟩ := r
-    simp only
+    simp only at hfn horig ⊢
     apply Sat.bind
-    apply Sat.mono (good_emitFreePtrs pos ft.frees s1 hi1)
+    apply Sat.mono (sat_emitFreePtrs pos ft.frees s1 hi1 horig)
     intro _ s2 ⟨hi2, hr2, _⟩
     split
     · exact Sat.throw_err
     · rename_i hle
       have hle' : fn.numLocals ≤ 256 := Nat.le_of_not_gt hle
-      apply Sat.mono (sat_emitFnConstant hi2 ⟨hle', hfn.mono hr2.csz⟩)
+      apply Sat.mono (sat_emitFnConstant hi2 hle' (hfn.mono hr2.cpre))
       intro _ s3 ⟨hi3, hr3, _⟩
       exact ⟨hi3, hr1.trans (hr2.trans hr3), trivial⟩
   | call pos ell f args =>
@@ -727,18 +773,5 @@ theorem allGood : ∀ n, AllGood n
     from any state that satisfies the invariant, and re-establishes it -/
 theorem good_compileStmts (ss : List Stmt) (hok : okSs ss = true) : Good (compileStmts ss) :=
   (allGood (sizeOf ss + 1)).stmts ss (by omega) hok
-
-theorem good_compileProg (file : List Stmt) (hok : okSs file = true) : Good (compileProg file) := by
-  have := good_compileStmts file hok
-  unfold compileProg
-  good
-
-theorem inv_initState (builtins : List (String × Nat)) (disabled : List String) : Inv (initState builtins disabled) := by
-  refine ⟨by simp [initState], ?_, Walk.refl 0, fun l hl => by simp [initState] at hl,
-    fun c hc => by simp [initState] at hc, fun p op hbd _ => absurd hbd.2 (by simp [initState])⟩
-  intro t ht
-  simp [initState] at ht
-  subst ht
-  exact storeOK_nil
 
 end UgoVerif.Compile
